@@ -75,6 +75,9 @@ impl Family for C19Family {
         }
         (serde_json::to_value(C19Plan { script, max_count, max_iv, hs_to_s, ch_to_s, locals }).expect("plan"), seed)
     }
+    fn records_decisions(&self) -> bool {
+        false
+    }
     fn exec(&self, plan: &Value, sched: &Sched, _record: bool) -> Outcome {
         let Ok(plan) = serde_json::from_value::<c19::C19Plan>(plan.clone()) else { return Outcome::default() };
         c19::run(&plan, sched)
@@ -155,6 +158,9 @@ impl Family for C01Family {
             .map(|_| UdpClient { via_socks: r.chance(1, 2), target: r.below(n_udp_targets), start_ms: r.below(200) as u64, sizes: (0..(1 + r.below(4))).map(|_| *r.pick(&[0usize, 1, 2, 3, 4, 13, 100, 1400, 9000])).collect(), gap_ms: *r.pick(&[0u64, 10, 300, 900]), hops: (0..4).map(|_| r.below(2)).collect() })
             .collect();
         (serde_json::to_value(C01Plan { net, tcp, udp, n_udp_targets }).expect("plan"), seed)
+    }
+    fn records_decisions(&self) -> bool {
+        false
     }
     fn exec(&self, plan: &Value, sched: &Sched, _record: bool) -> Outcome {
         let Ok(plan) = serde_json::from_value::<c01::C01Plan>(plan.clone()) else { return Outcome::default() };
@@ -256,6 +262,9 @@ impl Family for C14Family {
         p.frag_delay_ms = *r.pick(&[0u64, 1, 3, 20]);
         p.net = common::NetPlan { latency_lo: 0, latency_hi: *r.pick(&[0u64, 0, 5]), partial_io: *r.pick(&[0u32, 300]), spurious_pending: *r.pick(&[0u32, 50]), buf_cap: *r.pick(&[256usize, 65_536]), ..Default::default() };
         (serde_json::to_value(p).expect("plan"), seed)
+    }
+    fn records_decisions(&self) -> bool {
+        false
     }
     fn exec(&self, plan: &Value, sched: &Sched, _record: bool) -> Outcome {
         let Ok(plan) = serde_json::from_value::<c14::C14Plan>(plan.clone()) else { return Outcome::default() };
